@@ -36,7 +36,7 @@ fn lp_seeds(big: bool) -> Vec<Seed> {
     lp_seeds_with(big, false)
 }
 
-/// `chunked` (thorough: ~65 000 truncations of a 64 KiB input cost ~100 s of CPU per parser): adds a 65 537-byte vector - `DataInput::read_vec` fills its buffer in 64 KiB chunks and
+/// `chunked` (both tiers since the engine thins out the truncations of seeds over 16 KiB): adds a 65 537-byte vector - `DataInput::read_vec` fills its buffer in 64 KiB chunks and
 /// `ReaderDataInput::skip` reads in 8 KiB chunks; a shorter seed never completes a first chunk and starts another
 fn lp_seeds_with(big: bool, chunked: bool) -> Vec<Seed> {
     let mut v = Vec::new();
@@ -452,14 +452,14 @@ pub fn all(tier: Tier) -> Vec<P> {
         // ---- 1 ----
         P {
             name: "SliceDataInput: read_var_int -> skip(n) / length-prefixed string / bytes",
-            seeds: |t| lp_seeds_with(false, t == Tier::Thorough),
+            seeds: |_| lp_seeds_with(false, true),
             parse: |b, _| lp_passes(&|| Some(SliceDataInput::new(b))),
             len_arg: false,
             small: true,
         },
         P {
             name: "ReaderDataInput: read_var_int -> skip(n) / length-prefixed string / bytes",
-            seeds: |t| lp_seeds_with(false, t == Tier::Thorough),
+            seeds: |_| lp_seeds_with(false, true),
             parse: |b, _| lp_passes(&|| Some(ReaderDataInput::new(std::io::Cursor::new(b)))),
             len_arg: false,
             small: th,
